@@ -72,6 +72,19 @@ class RevolveCheckpointSchedule(CheckpointSchedule):
         write_ics = False
         adj_deps = False
 
+        # A checkpoint is moved, rather than copied, when it is read for the
+        # last time before it is written again (or before the schedule ends)
+        last_read = set()
+        pending_read = {}
+        for j, operation in enumerate(self._schedule):
+            op_action, (op_n0, _, op_storage) = _convert_action(operation)
+            if op_action in ("Read", "Read_memory", "Read_disk"):
+                pending_read[(op_storage, op_n0)] = j
+            elif op_action in ("Write", "Write_memory", "Write_disk"):
+                if (op_storage, op_n0) in pending_read:
+                    last_read.add(pending_read.pop((op_storage, op_n0)))
+        last_read.update(pending_read.values())
+
         i = 0
         while i < len(self._schedule):
             cp_action, (n_0, n_1, storage) = _convert_action(self._schedule[i])
@@ -85,7 +98,7 @@ class RevolveCheckpointSchedule(CheckpointSchedule):
                         raise InvalidActionIndex
                     write_ics = True
                     adj_deps = False
-                    snapshots.add(w_n0)
+                    snapshots.add((w_storage, w_n0))
                 elif (w_cp_action == "Write_Forward"
                       or w_cp_action == "Write_Forward_memory"):
                     if w_n0 != n_1:
@@ -112,8 +125,8 @@ class RevolveCheckpointSchedule(CheckpointSchedule):
                   or cp_action == "Read_memory"
                   or cp_action == "Read_disk"):
                 self._n = n_0
-                if n_0 == self._max_n - self._r - 1:
-                    snapshots.remove(n_0)
+                if i in last_read:
+                    snapshots.remove((storage, n_0))
                     yield Move(n_0, storage, StorageType.WORK)
                 else:
                     yield Copy(n_0, storage, StorageType.WORK)
